@@ -17,7 +17,9 @@ RULE = (
     "random byte intervals (0-5 blocks incl. overlapping, zero-sized, gaps "
     "before/between/after, uninitialized tails, symbolic expressions and "
     "offset-keyed table entries at any offset, with/without alignment and "
-    "custom tables, 1- and 4-byte nops) are split and re-joined: grouping, "
+    "custom tables, 1- and 4-byte nops) are split and re-joined, directly "
+    "or after one piece grew (as an edit would make it; every alignment "
+    "entry must hold again, block bytes and order stay): grouping, "
     "block bytes/addresses/annotations after split, exact restoration after "
     "join; (c) rewrite scenarios on modules with alignment entries that hold: "
     "they must hold afterwards and bytes not in the edited listing must be "
